@@ -130,7 +130,11 @@ func GetExtraSet(extra, raw []string) []string {
 	rt := make([]string, 0, len(extra)+len(raw))
 	rt = append(rt, raw...)
 	for _, v := range extra {
-		rt = append(rt, realPath(v))
+		// a name that does not resolve denotes nothing: an empty entry would be taken
+		// as a relative name and open up the whole work path
+		if p := realPath(v); p != "" {
+			rt = append(rt, p)
+		}
 	}
 	return rt
 }
